@@ -240,6 +240,10 @@ pub fn run_table(case: &ApiCase) -> Vec<(String, String, String, R)> {
             }
             (json!(ks), fl)
         }));
+        // zero weights (of either sign) are valid for the shortest-path functions only
+        if w && case.g.wmode == 2 {
+            continue;
+        }
         // ---------------- centrality
         call!("betweenness_centrality", Expect::Total, "", res(centrality::betweenness::betweenness_centrality(g, w, pick(2) == 1), |m| fmap_val(&m)));
         call!("closeness_centrality", Expect::Total, "", res(centrality::closeness::closeness_centrality(g, w, pick(2) == 1), |m| fmap_val(&m)));
@@ -411,7 +415,7 @@ impl Prop for C20 {
         fn me(n: usize) -> usize {
             n + 1
         }
-        (graph_strategy(&ALL_KINDS, 0, 7, me, &[0, 1], 3), any::<u64>(), prop::bool::weighted(0.3)).prop_map(|(g, sel, absent)| ApiCase { g, sel, absent }).boxed()
+        (graph_strategy(&ALL_KINDS, 0, 7, me, &[0, 1, 1, 2], 3), prop_oneof![8 => any::<u64>(), 1 => prop::sample::select(vec![0u64, 1, u64::MAX, u64::MAX - 1, u64::MAX - 7, 1 << 63, (1 << 32) - 1, 1 << 32])], prop::bool::weighted(0.3)).prop_map(|(g, sel, absent)| ApiCase { g, sel, absent }).boxed()
     }
     fn case_timeout_s(&self) -> u64 {
         60
